@@ -102,7 +102,7 @@ class ByteBlock(Block):
 
     def deep_eq(self, other: object) -> bool:
         # Do not move __eq__. See docstring for Node.deep_eq for more info.
-        if not isinstance(other, ByteBlock):
+        if not isinstance(other, ByteBlock) or type(other) is not type(self):
             return False
         return (
             self.offset == other.offset
